@@ -101,6 +101,11 @@ def note_from_j(j):
                  amp=amp_of(j.get('amp', 66)), tags=tags)
     if n.duration != dur:          # denominators > 1000 (reached by chaining .t7.t7.t7): bypass the constructor
         n.duration = dur
+    if j['type'] not in ('r', 'l') and n.amp != amp_of(j.get('amp', 66)):
+        # the source object has exactly the described fields whatever the constructor does with them
+        # (seed C05-1: `amp or DEFAULT_AMP` in __init__ made amplitude 0 unreachable through the constructor,
+        # while .set_amp(0) still reaches it)
+        n.amp = amp_of(j.get('amp', 66))
     return n
 
 
@@ -378,7 +383,7 @@ def ramp(rng, zero=True):
         return 66
     if x < 0.8:
         return rng.choice(DYN)
-    if x < 0.97 or not zero:
+    if x < 0.94 or not zero:
         return rng.randint(1, 127)
     return 0
 
@@ -1199,9 +1204,13 @@ def oracle(ctx):
     for k in ALL_KINDS:
         vals = [0] if k in ('r', 'l') else L[k]
         for v in vals:
-            for variant in range(4):
+            for variant in range(5):
                 j = {'type': k, 'val': v, 'oct': 0, 'dur': '1', 'mode': None, 'acc': None, 'amp': 66, 'tags': []}
-                if variant == 1:
+                if variant == 4:
+                    if k in ('r', 'l'):
+                        continue
+                    j.update(amp=0, tags=rng.choice([['accent'], [], ['mordant', 'accent']]), dur=rng.choice(['1', '1/2', '3']))
+                elif variant == 1:
                     j.update(dur='3/4', tags=['accent'])
                 elif variant == 2 and k not in ('r', 'l'):
                     j.update(oct=rng.choice([1, -2]), amp=rng.choice(DYN))
